@@ -413,9 +413,18 @@ def step (ds : DState) (line : String) : DState × String :=
   | ["swinit", ver, sys, comp, key] =>
     (ds, match ver.toNat?, u8 sys, u8 comp, keyOf key with
       | some v, some s, some c, some k =>
-        (match swInitialize { version := v, sysId := s, compId := c, key := k } with
+        let m := (match swInitialize { version := v, sysId := s, compId := c, key := k } with
         | .ok c' => s!"ok comp={c'.compId}"
         | .error .noVersion => "err:no-version" | .error .sysId => "err:sysid" | .error .keyNeedsV2 => "err:key-v2")
+        -- SPEC (C09): a missing version, a zero system id, or an outgoing key with version 1 is refused; otherwise accepted,
+        -- component id 1 when unset. When several reasons apply the property does not say which is reported: no verdict.
+        let reasons := (if v == 0 then ["err:no-version"] else []) ++ (if s == 0 then ["err:sysid"] else []) ++
+          (if k.isSome && v == 1 then ["err:key-v2"] else [])
+        let sp := if v > 2 then "-" else match reasons with
+          | [] => s!"ok comp={if c == 0 then 1 else c.toNat}"
+          | [r] => r
+          | _ => "-"
+        m ++ "\t" ++ sp
       | _, _, _, _ => "bad-op")
   | ["swrite", dn, ver, sys, comp, link, key, items] =>
     (ds, match ver.toNat?, u8 sys, u8 comp, u8 link, keyOf key with
